@@ -61,6 +61,18 @@ def eas_job(job):
         alt[:8] = [0.0, 20.0, np.nextafter(20.0, 21), np.nextafter(0.0, -1), -0.0, 19.999999, 1e-300, 25.0]
         E = 10.0 ** rng.uniform(-2.0, 2.5, n)
         lat, lon = rng.uniform(-1.5, 1.5, n), rng.uniform(-3.1, 3.1, n)
+        batches = [np.arange(n), np.flatnonzero((alt < 0) | (alt > 20)), np.flatnonzero((alt < 0) | (alt > 20))[:1],
+                   np.flatnonzero((alt >= 0) & (alt <= 20))[:1]]
+        for sel in batches:
+            _eas_batch(eas, ev, beta[sel], alt[sel], E[sel], lat[sel], lon[sel], A, QE, thr, Z, dask)
+    return ev
+
+
+def _eas_batch(eas, ev, beta, alt, E, lat, lon, A, QE, thr, Z, dask):
+    n = len(beta)
+    if n == 0:
+        return
+    if True:
         log = []
         orig = eas.CphotAng.run
 
@@ -69,8 +81,11 @@ def eas_job(job):
             log.append((float(a), float(out[0]), float(out[1])))
             return out
         eas.CphotAng.run = logged
-        with dask.config.set(scheduler="synchronous"):
-            pe, ce = eas(beta.copy(), alt.copy(), E.copy(), lat.copy(), lon.copy())
+        try:
+            with dask.config.set(scheduler="synchronous"):
+                pe, ce = eas(beta.copy(), alt.copy(), E.copy(), lat.copy(), lon.copy())
+        finally:
+            eas.CphotAng.run = orig
         reached = {}
         for a, d, th in log:
             reached.setdefault(a, []).append((d, th))
@@ -80,8 +95,7 @@ def eas_job(job):
             ev.append({"kind": "eas", "alt": bits(alt[i]), "reached": bool(_was(log, alt[i])),
                        "dphot": bits(d), "thdeg": bits(th), "A": bits(A), "QE": bits(QE), "thr": bits(thr), "numPEs": bits(pe[i]), "cosEff": bits(ce[i]),
                        "_m": {"alt": float(alt[i]), "A": A, "QE": QE, "thr": thr, "Z": Z, "dphot": d, "thdeg": th, "numPEs": float(pe[i]),
-                              "cosEff": float(ce[i])}})
-    return ev
+                              "cosEff": float(ce[i]), "batch_len": n}})
 
 
 def _was(log, a):
